@@ -55,7 +55,7 @@ class RecLayer(YowLayer):
 
     def __init__(self):
         super(RecLayer, self).__init__()
-        self.interface = Iface(self.IFACE) if self.IFACE is not None else None
+        self.interface = None
 
     def send(self, m):
         LOG.append("s%d:%d" % (self.LID, m))
@@ -96,8 +96,13 @@ def _rand_case(r, maxdepth=6, maxgroup=4):
                           "rx": r.choice(["pass", "pass", "pass", "drop", "dup", "inc"]),
                           "cons": r.choice([None, None, None, 1, 2, 3]), "iface": r.choice([None, 100 + l, 100 + l])}
     form = [r.choice(["class", "inst"]) if not isinstance(s, list) else r.choice(["tuple", "parallel"]) for s in slots]
+    derive = {}
+    if r.random() < 0.5:
+        for c in range(1, ncls):
+            if r.random() < 0.6:
+                derive[str(c)] = r.randrange(c)
     return {"slots": slots, "layers": layers, "form": form, "reversed": r.choice([0, 1]),
-            "builder": r.choice([0, 0, 1]), "pops": r.choice([0, 1, 2])}
+            "builder": r.choice([0, 0, 1]), "pops": r.choice([0, 1, 2]), "derive": derive}
 
 
 def cases(chk):
@@ -131,17 +136,22 @@ def nontrivial(stream, case):
 
 # ------------------------------------------------------------------------------- build real stack
 
-def _mkclass(lid, spec):
-    return type("L%d" % lid, (RecLayer,), {"LID": lid, "CLS": spec["cls"], "TX": spec["tx"], "RX": spec["rx"],
-                                           "CONS": spec["cons"], "IFACE": spec["iface"]})
+def _mkclasses(case):
+    """one Python class per MODEL class id, shared by every layer of that class (the stack finds interfaces by exact class); case["derive"]
+    makes some of them subclasses of others — a subclass is a different class, a lookup for the base must not stop at it"""
+    ids = sorted(set(sp["cls"] for sp in case["layers"].values()))
+    derive = case.get("derive") or {}
+    by_cls = {}
+    for c in ids:
+        parent = derive.get(str(c))
+        base = by_cls[parent] if parent is not None and parent in by_cls else RecLayer
+        by_cls[c] = type("K%d" % c, (base,), {"CLS": c})
+    return by_cls
 
 
 def build_real(case):
-    classes = {}
-    for k, spec in case["layers"].items():
-        classes[int(k)] = _mkclass(int(k), spec)
-    # classes of the same model class id must be THE SAME Python class for interface lookup by class:
-    # lookup is tested with a marker base class per model class id (see lookup below)
+    by_cls = _mkclasses(case)
+    classes = dict((int(k), by_cls[spec["cls"]]) for k, spec in case["layers"].items())
     items = []
     for s, f in zip(case["slots"], case["form"]):
         if isinstance(s, list):
@@ -162,7 +172,12 @@ def build_real(case):
         stack = b.build()
     else:
         stack = YowStack(tuple(order), reversed=bool(case["reversed"]))
-    return stack, classes
+    # the layers' behaviours are attached by position (several layers may share one class)
+    for k, spec in case["layers"].items():
+        layer, _i = real_layer(stack, case, int(k))
+        layer.LID, layer.TX, layer.RX, layer.CONS = int(k), spec["tx"], spec["rx"], spec["cons"]
+        layer.interface = Iface(spec["iface"]) if spec["iface"] is not None else None
+    return stack, by_cls
 
 
 def real_layer(stack, case, lid):
@@ -321,15 +336,23 @@ def run_case(chk, stream, case):
                     if total != expect:
                         fails.append(oracle("C18:event-order", "%s on shape %s (consumers %s): layers saw %s, expected %s"
                                             % (op, slots, {k: v["cons"] for k, v in case["layers"].items() if v["cons"]}, total, expect)))
-    # interface lookup by class (one Python class per layer; lookup by the layer's own class must find it)
-    for s in slots:
-        for l in members(s):
-            layer, _i = real_layer(stack, case, l)
-            got = stack.getLayerInterface(type(layer))
-            want = layer.interface
-            if got is not want:
-                fails.append(oracle("C18:interface-lookup", "getLayerInterface(class of layer %d) on %s returned %r, expected %r"
-                                    % (l, slots, getattr(got, "v", got), getattr(want, "v", want))))
+    # interface lookup by class: the first layer (bottom first, looking into groups) whose class is EXACTLY the one asked for
+    flat = [l for sl in slots for l in members(sl)]
+    for c, K in sorted(classes.items()):
+        got = stack.getLayerInterface(K)
+        gv = "-" if got is None else str(got.v)
+        model = d.ask("stack iface %d" % c)
+        if gv != model:
+            fails.append(corr("shape:iface", "getLayerInterface(class %d) on %s (classes %s, derive %s): impl=%s model=%s"
+                              % (c, slots, {k: v["cls"] for k, v in case["layers"].items()}, case.get("derive"), gv, model)))
+        same = [l for l in flat if case["layers"][str(l)]["cls"] == c]
+        if same and all(case["layers"][str(l)]["iface"] is not None for l in same):
+            want = str(case["layers"][str(same[0])]["iface"])
+            if gv != want:
+                fails.append(oracle("C18:interface-lookup", "getLayerInterface(class %d) on %s (layer classes %s, subclass relation %s) returned the interface %s, "
+                                    "the first layer of that class is %d with interface %s" % (c, slots, {k: v["cls"] for k, v in case["layers"].items()},
+                                                                                              case.get("derive"), gv, same[0], want)))
+        chk.hit("iface:%s" % ("derived" if case.get("derive") else "flat"))
     chk.hit("iface-lookups")
     return fails
 
